@@ -5,7 +5,7 @@
    is its count and wordnet.synsets(word). *)
 From Coq Require Import ZArith QArith List Bool Permutation.
 Import ListNotations.
-Require Import WnV.Base.Sx WnV.Model.Taxonomy WnV.Model.Ic WnV.Proofs.TaxSpec WnV.Proofs.IcProofs WnV.Proofs.IcConserve WnV.Proofs.IcRoot.
+Require Import WnV.Base.Sx WnV.Model.Taxonomy WnV.Model.Ic WnV.Proofs.TaxSpec WnV.Proofs.IcProofs WnV.Proofs.IcConserve WnV.Proofs.IcRoot WnV.Proofs.IcLoad.
 
 (* (1) the loop credits exactly the word synset and its hypernym ancestors, each once *)
 Theorem C15_ancestors_exact : forall hyp fuel x l,
@@ -166,6 +166,42 @@ Theorem C15_root_information_content_zero :
       nlog (probability cls smoothing ev t) == 0.
 Proof. exact root_information_content_zero. Qed.
 Print Assumptions C15_root_information_content_zero.
+
+(* (9) ic.load (model: load_entry, tied to wn.ic.load by the correspondence run_load): a synset gets
+   the weight of the last line naming it, 0 when none does; a class total is the sum of the
+   weights of that class's ROOT lines and nothing else *)
+Theorem C15_load_syn_last : forall cls lines t,
+    load_entry cls lines (Syn t)
+    = match find (line_names cls t) (rev lines) with
+      | Some l => line_weight l
+      | None => 0
+      end.
+Proof. exact load_syn_last. Qed.
+Print Assumptions C15_load_syn_last.
+
+Theorem C15_load_syn_unlisted : forall cls lines t,
+    (forall l, In l lines -> line_names cls t l = false) ->
+    load_entry cls lines (Syn t) = 0.
+Proof. exact load_syn_unlisted. Qed.
+Print Assumptions C15_load_syn_unlisted.
+
+Theorem C15_load_syn_unique : forall cls pre l post t,
+    line_names cls t l = true ->
+    (forall l', In l' post -> line_names cls t l' = false) ->
+    load_entry cls (pre ++ l :: post) (Syn t) = line_weight l.
+Proof. exact load_syn_unique. Qed.
+Print Assumptions C15_load_syn_unique.
+
+Theorem C15_load_total_is_root_sum : forall cls lines c,
+    load_entry cls lines (Total c) == sumQ (map line_weight (filter (line_root_of c) lines)).
+Proof. exact load_total_is_root_sum. Qed.
+Print Assumptions C15_load_total_is_root_sum.
+
+Theorem C15_load_total_no_roots : forall cls lines c,
+    (forall l, In l lines -> line_root_of c l = false) ->
+    load_entry cls lines (Total c) == 0.
+Proof. exact load_total_no_roots. Qed.
+Print Assumptions C15_load_total_no_roots.
 
 (* non-vacuity: the diamond a -> b, c -> d with corpus [a]: every synset ends at 1 + 1 *)
 Example C15_diamond :
